@@ -1,6 +1,7 @@
 pub mod c01;
 pub mod c02;
 pub mod c03;
+pub mod c04;
 pub mod c07;
 pub mod c08;
 pub mod c09;
@@ -31,6 +32,10 @@ pub fn run(ctx: &Ctx, args: &[String]) -> i32 {
         "C15" => c15::run(ctx),
         "C18" => c18::run(ctx),
         "C03" => c03::run_c03(ctx),
+        "C04" => c04::run_c04(ctx),
+        "C05" => c04::run_c05(ctx),
+        "C12" => c04::run_c12(ctx),
+        "worker" => c04::worker(ctx, args),
         "C17" => c03::run_c17(ctx),
         "selfcheck" => selfcheck(ctx),
         other => {
